@@ -15,7 +15,6 @@ structure St where
   nums : List (String × Nat)
   down : Bool := false          -- after a failed restart
 
-def St.parse (s : St) (x : String) : Option Nat := (s.nums.find? (·.1 == x)).map (·.2)
 
 def showDocs (d : Docs) : String :=
   let sorted := d.mergeSort (fun a b => a.1 ≤ b.1)
@@ -70,10 +69,10 @@ def showOut : POut → String
   | .ok => "ok" | .full => "full" | .rejected => "rejected" | .bool b => showBool b
   | .count n => toString n | .err => "err"
 
-def finish (s : St) (d0 : Disk) (r : PEng × Disk × List Action × POut) : Option St × String :=
-  let (e, d, as, out) := r
-  (some { s with eng := e, disk := d },
-   s!"{showOut out} acts={";".intercalate (as.map showAct)} rec={prefixOutcomes d0 as}")
+def finish (s : St) (r : PEng × List Action × POut) : Option St × String :=
+  let (e, as, out) := r
+  (some { s with eng := e, disk := s.disk.applyAll as },
+   s!"{showOut out} acts={";".intercalate (as.map showAct)} rec={prefixOutcomes s.disk as}")
 
 def step (st : Option St) (line : String) : Option St × String :=
   let (op, fs) := splitFields line
@@ -81,14 +80,13 @@ def step (st : Option St) (line : String) : Option St × String :=
   | "cfg", _ =>
     match natField? fs "cap", natField? fs "snap", natField? fs "rot" with
     | some cap, some snap, some rot =>
-      let (e, d, as) := pInit ⟨snap, rot, cap⟩
-      (some ⟨e, d, [], false⟩,
-        s!"ok acts={";".intercalate (as.map showAct)} rec={prefixOutcomes ⟨none, [], []⟩ as}")
+      let (e, as) := pInit ⟨snap, rot, cap⟩
+      (some ⟨e, emptyDisk.applyAll as, [], false⟩,
+        s!"ok acts={";".intercalate (as.map showAct)} rec={prefixOutcomes emptyDisk as}")
     | _, _, _ => (st, "bad-op")
   | _, none => (none, "bad-op:no-cfg")
   | _, some s0 =>
     let s : St := { s0 with nums := StoreEng.addNums s0.nums ((field? fs "nums").getD "-") }
-    let parse := s.parse
     if s.down && op != "restart" && op != "disk" then (some s, "down") else
     match op with
     | "insert" =>
@@ -96,33 +94,33 @@ def step (st : Option St) (line : String) : Option St × String :=
             natField? fs "flen", natField? fs "flendel" with
       | some id, some v, some m, some acc, some flen, some fd =>
         let a : Accept := if acc == "1" then .yes else if acc == "index" then .index else .preflight
-        finish s s.disk (pInsert parse s.eng s.disk id v m a flen fd)
+        finish s (pInsert s.eng s.disk id v m a flen fd)
       | _, _, _, _, _, _ => (st, "bad-op")
     | "delete" =>
       match natField? fs "id", natField? fs "flen" with
-      | some id, some flen => finish s s.disk (pDelete parse s.eng s.disk id flen)
+      | some id, some flen => finish s (pDelete s.eng s.disk id flen)
       | _, _ => (st, "bad-op")
     | "batch_delete" =>
       match natListField? fs "ids", natField? fs "flen" with
-      | some ids, some flen => finish s s.disk (pBatchDelete parse s.eng s.disk ids flen)
+      | some ids, some flen => finish s (pBatchDelete s.eng s.disk ids flen)
       | _, _ => (st, "bad-op")
     | "update" =>
       match natField? fs "id", metaField? fs "m", boolField? fs "merge", natField? fs "flen" with
       | some id, some m, some mg, some flen =>
-        let old := ((s.eng.store.lookup id).map (·.md)).getD []
+        let old := ((alookup id s.eng.store.docs).map (·.2)).getD []
         let newMd := if mg then Meta.merge old m else m
-        finish s s.disk (pUpdate parse s.eng s.disk id newMd flen)
+        finish s (pUpdate s.eng s.disk id newMd flen)
       | _, _, _, _ => (st, "bad-op")
     | "snapshot" =>
-      let (e, d, as) := snapshot s.eng s.disk
-      finish s s.disk (e, d, as, .ok)
+      let (e, as) := snapshot s.eng s.disk
+      finish s (e, as, .ok)
     | "restart" =>
-      match pRestart parse s.eng.cfg s.eng.nextName s.disk with
-      | .ok (e, d, as) =>
-        (some { s with eng := e, disk := d, down := false },
+      match pRestart s.eng.cfg s.eng.nextName s.disk with
+      | .ok (e, as) =>
+        (some { s with eng := e, disk := s.disk.applyAll as, down := false },
           s!"ok acts={";".intercalate (as.map showAct)} rec={prefixOutcomes s.disk as}")
       | .error e => (some { s with down := true }, showRecErr e)
-    | "census" => (some s, showDocs (liveDocs s.eng.store))
+    | "census" => (some s, showDocs s.eng.store.docs)
     | "disk" => (some s, showDisk s.disk)
     | _ => (st, "bad-op")
 
